@@ -14,6 +14,19 @@ Theorem C17_pong_echoes_token : forall cfg i s c token,
   process_ping cfg i s c token = hr s c [(i, srv cfg (lit "PONG " ++ cfg_name cfg ++ lit " :" ++ token))].
 Proof. reflexivity. Qed.
 
+(* ... as a whole line of a REGISTERED connection, whatever else is true of it - in particular whether it has a
+   capability negotiation open (CAP LS / REQ in mid-session without CAP END): the PING line is answered with the
+   PONG, and the PONG line (the answer to the server's keep-alive PING) is accepted silently, never refused *)
+Theorem C17_registered_ping_line : forall cfg verify i s c l msg token,
+  c_auth c = true -> tokenize l = inl msg -> command_of_message msg = inl (PING token) ->
+  process_line cfg verify i s c l = hr s c [(i, srv cfg (lit "PONG " ++ cfg_name cfg ++ lit " :" ++ token))].
+Proof. intros cfg verify i s c l msg token A Ht Hc. unfold process_line. rewrite Ht, Hc, A. reflexivity. Qed.
+
+Theorem C17_registered_pong_line : forall cfg verify i s c l msg token,
+  c_auth c = true -> tokenize l = inl msg -> command_of_message msg = inl (PONG token) ->
+  process_line cfg verify i s c l = hr s c [].
+Proof. intros cfg verify i s c l msg token A Ht Hc. unfold process_line. rewrite Ht, Hc, A. reflexivity. Qed.
+
 (* dead peer: the first PING that finds no timer running and gets no PONG before its deadline
    closes the connection exactly pong_timeout after that PING - whatever else is sent meanwhile,
    and also when further PINGs fall into the wait (pong_timeout >= ping_timeout) *)
@@ -59,3 +72,5 @@ Print Assumptions C17_live_peer_kept.
 Print Assumptions C17_closed_only_at_deadline.
 Print Assumptions C17_other_traffic_irrelevant.
 Print Assumptions C17_timeout_is_a_teardown.
+Print Assumptions C17_registered_ping_line.
+Print Assumptions C17_registered_pong_line.
